@@ -53,12 +53,12 @@ CHECKS = {
          "DESIGN.md §6 C13"),
  "C14": ("model_checking",
          "explicit-state IDDFS (C13 system + plan letters) + registration probe matrix per state",
-         "C13's search with a RegisterPlan letter (two heights x 9 operator/key combinations + executor-list variants, at most one per history) so that plans meet every validator-set state, max-validator setting and same-block add/remove; the process-local plan table is part of the state. Oracle at the plan height: EndBlock succeeds, batch accepted by the CometBFT mirror, engine holds exactly the plan key, state agrees, executors = exactly the plan list (and the genesis list before); C13's oracle at all other heights; malformed-registration probes in every state leave table and digest unchanged. Known findings D6a/D6b (plan reusing an existing operator with another key / another operator's key) are listed in known_findings.json with structural predicates.",
+         "C13's search with a RegisterPlan letter (two heights x 9 operator/key combinations + executor-list variants, at most one per history) so that plans meet every validator-set state, max-validator setting and same-block add/remove; the process-local plan table is part of the state. Oracle at the plan height: EndBlock succeeds, batch accepted by the CometBFT mirror, engine holds exactly the plan key, state agrees, executors = exactly the plan list (and the genesis list before); C13's oracle at all other heights; malformed-registration probes in every state (past/current height, occupied height with another and with the same proposal id, empty fields, bad executor address first / middle / last / only, wrong prefix, unparsable key) leave table and digest unchanged. Known findings D6a/D6b (plan reusing an existing operator with another key / another operator's key) are listed in known_findings.json with structural predicates.",
          "Trusted: as C13. Bounded: depth 5 (quick) / 6 (thorough).",
          "DESIGN.md §6 C14, §7"),
  "C17": ("model_checking",
          "exhaustive enumeration of value menus x tree shapes x memory layouts against an independent implementation",
-         "Every configuration of the stated finite menus is enumerated: leaf hash over the full product of boundary numbers and strings, node hash over all ordered pairs (incl. equal/adjacent/all-zero/all-ff) in both argument orders, output roots, L2 denoms, bridge addresses, root-from-proof for trees of 1-9 leaves at every position; each byte-slice input in all 3^n memory layouts (exact capacity / spare capacity with sentinel / sub-slices of one buffer). Oracle: repository value = independent implementation (own SHA3, pinned to Python hashlib vectors) = pinned vectors; result identical in every layout; every byte of every caller backing array unchanged; FinalizeTokenWithdrawal gives the same verdict for a valid claim under every layout of proofs/storage root/block hash.",
+         "Every configuration of the stated finite menus is enumerated: leaf hash over the full product of boundary numbers and strings, node hash over all ordered pairs (incl. equal/adjacent/all-zero/all-ff) in both argument orders, output roots, L2 denoms, bridge addresses, root-from-proof for trees of 1-9 leaves at every position; each byte-slice input in all 3^n memory layouts (exact capacity / spare capacity with sentinel / sub-slices of one buffer). Oracle: repository value = independent implementation (own SHA3, pinned to Python hashlib vectors) = pinned vectors; result identical in every layout; every byte of every caller backing array unchanged; FinalizeTokenWithdrawal gives the same verdict for a valid claim under every layout of proofs/storage root/block hash; history independence: every ordered pair (thorough: triple) of root-from-proof calls from a 30-input menu (valid proofs, bit flips, swapped elements) and every ordered pair of node-hash argument pairs is run on one shared, in-place overwritten memory and each answer must be the independent implementation's for the bytes given.",
          "Trusted: Go toolchain; the pinned vectors (generated once by vectors/gen_vectors.py with hashlib). Bounded: boundary values represent the 64-bit ranges; proof lists up to 4 elements.",
          "DESIGN.md §6 C17"),
  "C04": ("model_checking",
@@ -73,8 +73,8 @@ CHECKS = {
          "DESIGN.md §6 C08"),
  "C19": ("model_checking",
          "explicit-state IDDFS over real handlers + real BridgeHook, full metadata probe matrix per state",
-         "Exhaustive enumeration of create / update-metadata / update-challenger / channel-send histories over two bridges, two challengers, three channels (one missing) with the real hook.BridgeHook wired over store-backed channel/perm keepers (they branch and roll back with the transaction); in every explored state the full 19-entry metadata menu (documented lists, unknown fields, duplicate and differently-cased keys, null, wrong types, non-JSON, empty, oversized) is probed through CreateBridge and UpdateMetadata. An independent metadata reader classifies P/N/A; oracle: any admin change goes to the bridge's challenger, only on listed channels, only on channels that existed with next-send-sequence 1 and no admin (or were already his); P and success => all listed channels administered by the challenger; failure => admin table unchanged; N => never touched; challenger update hands over exactly the listed channels.",
-         "Trusted: as C11; channel and ibc-perm keepers are a harness KV store (IsTaken = an admin is set). Bounded: depth 4 (quick) / 5 (thorough).",
+         "Exhaustive enumeration of create / update-metadata / update-challenger / channel-send histories over two bridges, two challengers, three channels (one missing) with the real hook.BridgeHook wired over store-backed channel/perm keepers (they branch and roll back with the transaction); in every explored state the full 19-entry metadata menu (documented lists, unknown fields, duplicate and differently-cased keys, null, wrong types, non-JSON, empty, oversized) is probed through CreateBridge and UpdateMetadata. An independent metadata reader classifies P/N/A; oracle: any admin change goes to the bridge's challenger, only on listed channels, only on channels that existed with next-send-sequence 1 and no admin (or were already his); P and success => all listed channels administered by the challenger; failure => admin table unchanged; N => never touched; challenger update hands over exactly the listed channels — also when the metadata stored at that moment is any of the 19 shapes (two-step probes UpdateMetadata(m) ; UpdateChallenger in every state).",
+         "Trusted: as C11; channel and ibc-perm keepers are a harness KV store (IsTaken = an admin is set). Bounded: depth 5 (quick) / 6 (thorough).",
          "DESIGN.md §6 C19"),
  "C20": ("model_checking",
          "exhaustive input matrices on the real ante/lane code + probe family in every state of C06's search",
@@ -93,7 +93,7 @@ CHECKS = {
          "DESIGN.md §6 C12"),
  "C15": ("model_checking",
          "explicit-state search over update/refresh histories + exhaustive vote-shape product per state",
-         "Mode S enumerates histories of oracle updates (three timestamps, full and partial pair coverage), validator-set refreshes (lower/equal/higher height x configured/other/empty client x same/other set) and oracle-flag toggles on the real UpdateOracle handler, connect x/oracle keeper, codecs and vote aggregator; Mode P executes, at the root (and every depth-1 state in the thorough tier), all 12^n combinations of per-validator vote shapes (absent, signed p/q, missing pair, missing timestamp, bad signature, other chain id / height / round, listed twice, non-commit empty / with extension) x unknown validator, and in every state the sender / update-height / equal-and-older-timestamp variations. Oracle (soundness direction): a changed price implies executor, flag on, height >= recorded set height, distinct known validators with a correctly signed price (by the harness's own signing bookkeeping) holding >= 2/3 of the recorded power, strictly larger timestamp; rejected => digest unchanged; set replaced => configured client and strictly higher height.",
+         "Mode S enumerates histories of oracle updates (three timestamps, full and partial pair coverage), validator-set refreshes (lower/equal/higher height x configured/other/empty client x same/other set) and oracle-flag toggles (plus, in a third configuration whose bridge info starts without an L1 client id so that no set can be recorded, the one-time SetL1ClientId) on the real UpdateOracle handler, connect x/oracle keeper, codecs and vote aggregator; Mode P executes, at the root (and every depth-1 state in the thorough tier), all 14^n combinations of per-validator vote shapes (absent, signed p/q, missing pair, missing timestamp, bad signature, other chain id / height / round, listed twice, non-commit empty / with extension / with unsigned extension / with signature only) x unknown validator, and in every state the sender / update-height / equal-and-older-timestamp variations. Oracle (soundness direction): a changed price implies executor, flag on, height >= recorded set height, distinct known validators with a correctly signed price (by the harness's own signing bookkeeping) holding >= 2/3 of the recorded power, strictly larger timestamp; rejected => digest unchanged; set replaced => configured client and strictly higher height.",
          "Trusted: as C06 plus connect's codecs/aggregator and CometBFT ed25519. Bounded: validator sets (1,1,1), (3,1,1) and (thorough) (2,1,1,1); depth 3 (quick) / 4 (thorough).",
          "DESIGN.md §6 C15"),
  "C16": ("model_checking",
@@ -103,7 +103,7 @@ CHECKS = {
          "DESIGN.md §6 C16"),
  "C18": ("model_checking",
          "explicit-state IDDFS with every transition re-executed on the same node, on an independent node and under every map-iteration order (generated go build -overlay) + type-aware nondeterminism census",
-         "A stdlib-only type-aware census (go list -export + go/types) of the current tree's non-test, non-generated sources of both modules reports every map range, goroutine, select, channel operation, wall-clock, randomness and environment read; every map range is rewritten by a generated build overlay (leaving /repo untouched) to iterate in an order the harness chooses per goroutine; anything else outside the telemetry whitelist is a violation. Mode S over every message type of both modules plus blocks, oracle updates with three voters and an executor-change plan; every transition of every explored state is executed twice on the same node, once on a second independently constructed node loaded with the parent's raw store content, and once per permutation (all n! for n <= 4) at every instrumented map site it reaches (a re-run fails hard if the recorded site is not reached again). Response bytes, full error text, ordered events, gas, ordered validator updates and the digest of every store must be identical.",
+         "A stdlib-only type-aware census (go list -export + go/types) of the current tree's non-test, non-generated sources of both modules reports every map range, goroutine, select, channel operation, wall-clock, randomness and environment read; every map range is rewritten by a generated build overlay (leaving /repo untouched) to iterate in an order the harness chooses per goroutine; anything else outside the telemetry whitelist is a violation. Mode S over every message type of both modules plus blocks, oracle updates with three voters and an executor-change plan; every transition of every explored state is executed twice on the same node, once on a second independently constructed node loaded with the parent's raw store content, and once per permutation (all n! for n <= 4) at every instrumented map site it reaches (a re-run fails hard if the recorded site is not reached again). A violation is confirmed by replaying it in two fresh processes (the property is about independence from what the process did before). Response bytes, full error text, ordered events, gas, ordered validator updates and the digest of every store must be identical.",
          "Trusted: Go toolchain (go list, go/types, -overlay); map iteration inside dependencies is exercised only by Go's own randomisation across the >= 3 executions of each transition. Bounded: depth 3/4 (L1) and 4/5 (L2).",
          "DESIGN.md §6 C18, §4"),
 }
